@@ -205,6 +205,7 @@ theorem recvMessage_measure {cfg : Cfg} {cksum : Bytes → Bytes} {q q' : BQ} {c
            obtain ⟨_, rfl, rfl⟩ := h
            omega)
 
+set_option linter.unusedVariables false in
 /-- the reader: successive `receive_message()` calls on a queue holding the chunks `cs`;
     the list ends where a call would wait for more data -/
 def run (cfg : Cfg) (cksum : Bytes → Bytes) (q : BQ) (cs : List Bytes) : List Out :=
@@ -246,6 +247,7 @@ theorem step_measure {cfg : Cfg} {cksum : Bytes → Bytes} {s s' : Bytes} {o : O
         obtain ⟨_, rfl⟩ := h
         simp [headerLen]; omega
 
+set_option linter.unusedVariables false in
 def decode (cfg : Cfg) (cksum : Bytes → Bytes) (s : Bytes) : List Out :=
   match h : step cfg cksum s with
   | none => []
